@@ -76,6 +76,7 @@ func init() {
 	reg("newf", Leaf, 3, ix(1), ix(0, 2), true, 4)
 	reg("assertf", Leaf, 2, ix(1), ix(0), true, 2)
 	reg("unimpl", Leaf, 3, ix(0), ix(1, 2), true, 2)
+	reg("unimpld", Leaf, 2, ix(0), ix(1), true, 1) // issue link with a detail but no URL
 	reg("domnew", Leaf, 1, ix(0), nil, true, 1)
 	reg("gstatus", Leaf, 1, nil, ix(0), true, 1)
 	reg("errorf", Leaf, 3, ix(1), ix(0, 2), true, 1)
@@ -260,6 +261,8 @@ func Build1(n *Node, m Built) error {
 		return &errorspb.TestError{}
 	case "rterr":
 		return RuntimeErrors[n.N[0]]
+	case "unimpld":
+		return errors.UnimplementedError(errors.IssueLink{Detail: S[1]}, S[0])
 	case "domnew":
 		return domains.New(S[0])
 	case "gstatus":
